@@ -7,6 +7,56 @@
 #define MAX_RECURSION_DEPTH 1000
 
 #define MAX_PARSER_ERRORS 20
+#ifdef NANOLANG_VERIF
+/* Verification hook H6 (C09): progress of the parser's recovery loops.
+ * Inert unless NANOLANG_VERIF_TRACE_PARSER=<file> (one ndjson event per loop iteration) or
+ * NANOLANG_VERIF_PARSE_FUEL=<n> (give up when a loop makes no progress n times in a row) is set. */
+#include <setjmp.h>
+jmp_buf *nl_verif_parse_jmp = NULL;              /* a harness may set a longjmp target for fuel exhaustion */
+const char *nl_verif_parse_stuck_loop = NULL;
+static FILE *nlv_trace = NULL;
+static long nlv_fuel = -1;
+static int nlv_ready = 0;
+static void nlv_setup(void) {
+    const char *t = getenv("NANOLANG_VERIF_TRACE_PARSER");
+    const char *f = getenv("NANOLANG_VERIF_PARSE_FUEL");
+    nlv_ready = 1;
+    if (t && *t) { nlv_trace = fopen(t, "a"); if (nlv_trace) setvbuf(nlv_trace, NULL, _IOLBF, 0); }
+    if (f && *f) nlv_fuel = atol(f);
+}
+static void nlv_iter(Stage1Parser *p, const char *loop, int *prev, int *stall) {
+    if (!nlv_ready) nlv_setup();
+    if (!nlv_trace && nlv_fuel < 0) return;
+    if (*prev < 0) {
+        if (nlv_trace) fprintf(nlv_trace, "{\"e\":\"enter\",\"loop\":\"%s\",\"pos\":%d,\"errs\":%d}\n", loop, p->pos, p->error_count);
+    } else {
+        if (nlv_trace) fprintf(nlv_trace, "{\"e\":\"iter\",\"loop\":\"%s\",\"pos_before\":%d,\"pos_after\":%d,\"errs\":%d}\n",
+                               loop, *prev, p->pos, p->error_count);
+        if (p->pos == *prev) (*stall)++; else *stall = 0;
+        if (nlv_fuel >= 0 && *stall > nlv_fuel) {
+            if (nlv_trace) { fprintf(nlv_trace, "{\"e\":\"stuck\",\"loop\":\"%s\",\"pos\":%d,\"errs\":%d}\n", loop, p->pos, p->error_count); fflush(nlv_trace); }
+            nl_verif_parse_stuck_loop = loop;
+            if (nl_verif_parse_jmp) longjmp(*nl_verif_parse_jmp, 1);
+            fprintf(stderr, "nanolang-verif: parser makes no progress in loop '%s' at token %d; giving up\n", loop, p->pos);
+            exit(3);
+        }
+    }
+    *prev = p->pos;
+}
+static void nlv_exit(Stage1Parser *p, const char *loop, int *prev) {
+    if (!nlv_ready) nlv_setup();
+    if (nlv_trace && *prev >= 0) fprintf(nlv_trace, "{\"e\":\"exit\",\"loop\":\"%s\",\"pos_before\":%d,\"pos_after\":%d,\"errs\":%d}\n",
+                                         loop, *prev, p->pos, p->error_count);
+    *prev = -1;
+}
+static void nlv_mark(const char *what, int n, int errs) {
+    if (!nlv_ready) nlv_setup();
+    if (nlv_trace) { fprintf(nlv_trace, "{\"e\":\"%s\",\"n\":%d,\"errs\":%d}\n", what, n, errs); fflush(nlv_trace); }
+}
+#define NLV_LOOP_DECL(id) int nlv_prev_##id = -1; int nlv_stall_##id = 0;
+#define NLV_LOOP_ITER(pp, id) nlv_iter((pp), #id, &nlv_prev_##id, &nlv_stall_##id)
+#define NLV_LOOP_EXIT(pp, id) nlv_exit((pp), #id, &nlv_prev_##id)
+#endif
 
 /* Longest chain of postfix/infix operators in one expression (the AST is as deep as the chain is long) */
 #define MAX_EXPRESSION_CHAIN 2000
@@ -200,7 +250,13 @@ static FunctionSignature *parse_function_signature(Stage1Parser *p) {
     
     if (tok->token_type != TOKEN_RPAREN) {
         /* Parse comma-separated types */
+#ifdef NANOLANG_VERIF
+        NLV_LOOP_DECL(fnsig_params)
+#endif
         while (1) {
+#ifdef NANOLANG_VERIF
+            NLV_LOOP_ITER(p, fnsig_params);
+#endif
             char *struct_name = NULL;
             FunctionSignature *nested_fn_sig = NULL;
             Type param_type = parse_type_with_element(p, NULL, &struct_name, &nested_fn_sig, NULL);
@@ -243,6 +299,9 @@ static FunctionSignature *parse_function_signature(Stage1Parser *p) {
                 break;
             }
         }
+#ifdef NANOLANG_VERIF
+        NLV_LOOP_EXIT(p, fnsig_params);
+#endif
     }
     
     /* Expect ')' */
@@ -442,7 +501,13 @@ static Type parse_type_with_element(Stage1Parser *p, Type *element_type_out, cha
                             }
 
                             /* Parse exactly 2 type parameters: K, V */
+#ifdef NANOLANG_VERIF
+                            NLV_LOOP_DECL(type_generic_a)
+#endif
                             while (!match(p, TOKEN_GT) && !match(p, TOKEN_EOF)) {
+#ifdef NANOLANG_VERIF
+                                NLV_LOOP_ITER(p, type_generic_a);
+#endif
                                 if (info->type_param_count >= capacity) {
                                     parser_error(p, current_token(p)->line, current_token(p)->column, "Error at line %d, column %d: HashMap expects exactly 2 type parameters\n",
                                             current_token(p)->line, current_token(p)->column);
@@ -594,6 +659,9 @@ static Type parse_type_with_element(Stage1Parser *p, Type *element_type_out, cha
                                     return TYPE_UNKNOWN;
                                 }
                             }
+#ifdef NANOLANG_VERIF
+                            NLV_LOOP_EXIT(p, type_generic_a);
+#endif
 
                             if (!expect(p, TOKEN_GT, "Expected '>' after HashMap type parameters")) {
                                 for (int i = 0; i < info->type_param_count; i++) {
@@ -621,9 +689,18 @@ static Type parse_type_with_element(Stage1Parser *p, Type *element_type_out, cha
                             return TYPE_HASHMAP;
                         } else {
                             /* No type_info_out provided: consume params and return TYPE_HASHMAP */
+#ifdef NANOLANG_VERIF
+                            NLV_LOOP_DECL(type_generic_b)
+#endif
                             while (!match(p, TOKEN_GT) && !match(p, TOKEN_EOF)) {
+#ifdef NANOLANG_VERIF
+                                NLV_LOOP_ITER(p, type_generic_b);
+#endif
                                 advance(p);
                             }
+#ifdef NANOLANG_VERIF
+                            NLV_LOOP_EXIT(p, type_generic_b);
+#endif
                             if (!expect(p, TOKEN_GT, "Expected '>' after HashMap type parameters")) {
                                 free(type_name);
                                 return TYPE_UNKNOWN;
@@ -651,7 +728,13 @@ static Type parse_type_with_element(Stage1Parser *p, Type *element_type_out, cha
                         int capacity = 4;
                         info->type_params = malloc(sizeof(TypeInfo*) * capacity);
                         
+#ifdef NANOLANG_VERIF
+                        NLV_LOOP_DECL(type_generic_c)
+#endif
                         while (!match(p, TOKEN_GT) && !match(p, TOKEN_EOF)) {
+#ifdef NANOLANG_VERIF
+                            NLV_LOOP_ITER(p, type_generic_c);
+#endif
                             if (info->type_param_count >= capacity) {
                                 capacity *= 2;
                                 info->type_params = realloc(info->type_params, sizeof(TypeInfo*) * capacity);
@@ -797,6 +880,9 @@ static Type parse_type_with_element(Stage1Parser *p, Type *element_type_out, cha
                                 return TYPE_UNKNOWN;
                             }
                         }
+#ifdef NANOLANG_VERIF
+                        NLV_LOOP_EXIT(p, type_generic_c);
+#endif
                         
                         if (!expect(p, TOKEN_GT, "Expected '>' after generic type parameters")) {
                             /* Free info and its type_params */
@@ -813,9 +899,18 @@ static Type parse_type_with_element(Stage1Parser *p, Type *element_type_out, cha
                         return TYPE_UNION;  /* Generic unions/structs use TYPE_UNION */
                     } else {
                         /* No type_info_out provided, just consume the parameters */
+#ifdef NANOLANG_VERIF
+                        NLV_LOOP_DECL(type_generic_d)
+#endif
                         while (!match(p, TOKEN_GT) && !match(p, TOKEN_EOF)) {
+#ifdef NANOLANG_VERIF
+                            NLV_LOOP_ITER(p, type_generic_d);
+#endif
                             advance(p);
                         }
+#ifdef NANOLANG_VERIF
+                        NLV_LOOP_EXIT(p, type_generic_d);
+#endif
                         if (!expect(p, TOKEN_GT, "Expected '>' after generic type parameters")) {
                             free(type_name);
                             return TYPE_UNKNOWN;
@@ -891,7 +986,13 @@ static Type parse_type_with_element(Stage1Parser *p, Type *element_type_out, cha
             
             /* Parse first type */
             if (!match(p, TOKEN_RPAREN)) {
+#ifdef NANOLANG_VERIF
+                NLV_LOOP_DECL(type_fn_params)
+#endif
                 do {
+#ifdef NANOLANG_VERIF
+                    NLV_LOOP_ITER(p, type_fn_params);
+#endif
                     if (count >= capacity) {
                         capacity *= 2;
                         tuple_types = realloc(tuple_types, sizeof(Type) * capacity);
@@ -920,6 +1021,9 @@ static Type parse_type_with_element(Stage1Parser *p, Type *element_type_out, cha
                         break;
                     }
                 } while (!match(p, TOKEN_RPAREN) && !match(p, TOKEN_EOF));
+#ifdef NANOLANG_VERIF
+                NLV_LOOP_EXIT(p, type_fn_params);
+#endif
             }
             
             if (!expect(p, TOKEN_RPAREN, "Expected ')' after tuple types")) {
@@ -971,7 +1075,13 @@ static bool parse_parameters(Stage1Parser *p, Parameter **params, int *param_cou
     Parameter *param_list = malloc(sizeof(Parameter) * capacity);
 
     if (!match(p, TOKEN_RPAREN)) {
+#ifdef NANOLANG_VERIF
+        NLV_LOOP_DECL(parameters)
+#endif
         do {
+#ifdef NANOLANG_VERIF
+            NLV_LOOP_ITER(p, parameters);
+#endif
             if (count >= capacity) {
                 capacity *= 2;
                 param_list = realloc(param_list, sizeof(Parameter) * capacity);
@@ -1033,6 +1143,9 @@ static bool parse_parameters(Stage1Parser *p, Parameter **params, int *param_cou
                 break;
             }
         } while (true);
+#ifdef NANOLANG_VERIF
+        NLV_LOOP_EXIT(p, parameters);
+#endif
     }
 
     *params = param_list;
@@ -1081,7 +1194,13 @@ static ASTNode *parse_prefix_op(Stage1Parser *p) {
         int count = 0;
         ASTNode **args = malloc(sizeof(ASTNode*) * capacity);
 
+#ifdef NANOLANG_VERIF
+        NLV_LOOP_DECL(prefix_op_args)
+#endif
         while (!match(p, TOKEN_RPAREN) && !match(p, TOKEN_EOF)) {
+#ifdef NANOLANG_VERIF
+            NLV_LOOP_ITER(p, prefix_op_args);
+#endif
             if (count >= capacity) {
                 capacity *= 2;
                 args = realloc(args, sizeof(ASTNode*) * capacity);
@@ -1102,6 +1221,9 @@ static ASTNode *parse_prefix_op(Stage1Parser *p) {
                 return NULL;
             }
         }
+#ifdef NANOLANG_VERIF
+        NLV_LOOP_EXIT(p, prefix_op_args);
+#endif
 
         if (!expect(p, TOKEN_RPAREN, "Expected ')' after prefix operation")) {
             free(args);
@@ -1136,7 +1258,13 @@ static ASTNode *parse_prefix_op(Stage1Parser *p) {
         int count = 0;
         ASTNode **args = malloc(sizeof(ASTNode*) * capacity);
 
+#ifdef NANOLANG_VERIF
+        NLV_LOOP_DECL(prefix_call_args)
+#endif
         while (!match(p, TOKEN_RPAREN) && !match(p, TOKEN_EOF)) {
+#ifdef NANOLANG_VERIF
+            NLV_LOOP_ITER(p, prefix_call_args);
+#endif
             if (count >= capacity) {
                 capacity *= 2;
                 args = realloc(args, sizeof(ASTNode*) * capacity);
@@ -1156,6 +1284,9 @@ static ASTNode *parse_prefix_op(Stage1Parser *p) {
                 return NULL;
             }
         }
+#ifdef NANOLANG_VERIF
+        NLV_LOOP_EXIT(p, prefix_call_args);
+#endif
 
         if (!expect(p, TOKEN_RPAREN, "Expected ')' after function call")) {
             free(func_name);
@@ -1203,7 +1334,13 @@ static TypeInfo *parse_generic_type_args(Stage1Parser *p, const char *base_name)
     int count = 0;
     TypeInfo **type_params = malloc(sizeof(TypeInfo*) * capacity);
     
+#ifdef NANOLANG_VERIF
+    NLV_LOOP_DECL(generic_type_args)
+#endif
     while (!match(p, TOKEN_GT) && !match(p, TOKEN_EOF)) {
+#ifdef NANOLANG_VERIF
+        NLV_LOOP_ITER(p, generic_type_args);
+#endif
         if (count >= capacity) {
             capacity *= 2;
             type_params = realloc(type_params, sizeof(TypeInfo*) * capacity);
@@ -1239,6 +1376,9 @@ static TypeInfo *parse_generic_type_args(Stage1Parser *p, const char *base_name)
             advance(p);
         }
     }
+#ifdef NANOLANG_VERIF
+    NLV_LOOP_EXIT(p, generic_type_args);
+#endif
     
     if (!expect(p, TOKEN_GT, "Expected '>' after generic type parameters")) {
         /* Cleanup */
@@ -1338,7 +1478,13 @@ static ASTNode *parse_primary(Stage1Parser *p) {
             ASTNode **elements = malloc(sizeof(ASTNode*) * capacity);
             
             /* Parse array elements */
+#ifdef NANOLANG_VERIF
+            NLV_LOOP_DECL(array_literal)
+#endif
             while (!match(p, TOKEN_RBRACKET) && !match(p, TOKEN_EOF)) {
+#ifdef NANOLANG_VERIF
+                NLV_LOOP_ITER(p, array_literal);
+#endif
                 if (count >= capacity) {
                     capacity *= 2;
                     elements = realloc(elements, sizeof(ASTNode*) * capacity);
@@ -1355,6 +1501,9 @@ static ASTNode *parse_primary(Stage1Parser *p) {
                     return NULL;
                 }
             }
+#ifdef NANOLANG_VERIF
+            NLV_LOOP_EXIT(p, array_literal);
+#endif
             
             if (!expect(p, TOKEN_RBRACKET, "Expected ']' at end of array literal")) {
                 free(elements);
@@ -1384,7 +1533,13 @@ static ASTNode *parse_primary(Stage1Parser *p) {
             int count = 0;
             ASTNode **statements = malloc(sizeof(ASTNode*) * capacity);
 
+#ifdef NANOLANG_VERIF
+            NLV_LOOP_DECL(unsafe_expr_block)
+#endif
             while (!match(p, TOKEN_RBRACE) && !match(p, TOKEN_EOF)) {
+#ifdef NANOLANG_VERIF
+                NLV_LOOP_ITER(p, unsafe_expr_block);
+#endif
                 if (count >= capacity) {
                     capacity *= 2;
                     statements = realloc(statements, sizeof(ASTNode*) * capacity);
@@ -1398,6 +1553,9 @@ static ASTNode *parse_primary(Stage1Parser *p) {
                     advance(p);
                 }
             }
+#ifdef NANOLANG_VERIF
+            NLV_LOOP_EXIT(p, unsafe_expr_block);
+#endif
 
             if (!expect(p, TOKEN_RBRACE, "Expected '}' after unsafe block")) {
                 free(statements);
@@ -1433,7 +1591,13 @@ static ASTNode *parse_primary(Stage1Parser *p) {
                 char **field_names = malloc(sizeof(char*) * capacity);
                 ASTNode **field_values = malloc(sizeof(ASTNode*) * capacity);
                 
+#ifdef NANOLANG_VERIF
+                NLV_LOOP_DECL(anon_struct_literal)
+#endif
                 while (!match(p, TOKEN_RBRACE) && !match(p, TOKEN_EOF)) {
+#ifdef NANOLANG_VERIF
+                    NLV_LOOP_ITER(p, anon_struct_literal);
+#endif
                     if (count >= capacity) {
                         capacity *= 2;
                         field_names = realloc(field_names, sizeof(char*) * capacity);
@@ -1468,6 +1632,9 @@ static ASTNode *parse_primary(Stage1Parser *p) {
                         advance(p);
                     }
                 }
+#ifdef NANOLANG_VERIF
+                NLV_LOOP_EXIT(p, anon_struct_literal);
+#endif
                 
                 if (!expect(p, TOKEN_RBRACE, "Expected '}' after struct literal fields")) {
                     for (int i = 0; i < count; i++) {
@@ -1564,7 +1731,13 @@ static ASTNode *parse_primary(Stage1Parser *p) {
                 char **field_names = malloc(sizeof(char*) * capacity);
                 ASTNode **field_values = malloc(sizeof(ASTNode*) * capacity);
                 
+#ifdef NANOLANG_VERIF
+                NLV_LOOP_DECL(struct_literal)
+#endif
                 while (!match(p, TOKEN_RBRACE) && !match(p, TOKEN_EOF)) {
+#ifdef NANOLANG_VERIF
+                    NLV_LOOP_ITER(p, struct_literal);
+#endif
                     if (count >= capacity) {
                         capacity *= 2;
                         field_names = realloc(field_names, sizeof(char*) * capacity);
@@ -1594,6 +1767,9 @@ static ASTNode *parse_primary(Stage1Parser *p) {
                         advance(p);
                     }
                 }
+#ifdef NANOLANG_VERIF
+                NLV_LOOP_EXIT(p, struct_literal);
+#endif
                 
                 if (!expect(p, TOKEN_RBRACE, "Expected '}' at end of struct literal")) {
                     free(struct_name);
@@ -1626,7 +1802,13 @@ static ASTNode *parse_primary(Stage1Parser *p) {
                 advance(p);
                 
                 /* Check for :: */
+#ifdef NANOLANG_VERIF
+                NLV_LOOP_DECL(qualified_name)
+#endif
                 while (match(p, TOKEN_DOUBLE_COLON)) {
+#ifdef NANOLANG_VERIF
+                    NLV_LOOP_ITER(p, qualified_name);
+#endif
                     advance(p);  /* consume :: */
                     
                     if (!(match(p, TOKEN_IDENTIFIER) || match(p, TOKEN_SET))) {
@@ -1646,6 +1828,9 @@ static ASTNode *parse_primary(Stage1Parser *p) {
                     name_parts[count++] = strdup(current_token(p)->value);
                     advance(p);
                 }
+#ifdef NANOLANG_VERIF
+                NLV_LOOP_EXIT(p, qualified_name);
+#endif
                 
                 if (count == 1) {
                     /* Simple identifier - check for generic type args: Type<T, E> */
@@ -1723,7 +1908,13 @@ static ASTNode *parse_primary(Stage1Parser *p) {
                         char **field_names = malloc(sizeof(char*) * field_capacity);
                         ASTNode **field_values = malloc(sizeof(ASTNode*) * field_capacity);
                         
+#ifdef NANOLANG_VERIF
+                        NLV_LOOP_DECL(generic_union_fields)
+#endif
                         while (!match(p, TOKEN_RBRACE) && !match(p, TOKEN_EOF)) {
+#ifdef NANOLANG_VERIF
+                            NLV_LOOP_ITER(p, generic_union_fields);
+#endif
                             if (field_count >= field_capacity) {
                                 field_capacity *= 2;
                                 field_names = realloc(field_names, sizeof(char*) * field_capacity);
@@ -1753,6 +1944,9 @@ static ASTNode *parse_primary(Stage1Parser *p) {
                                 advance(p);
                             }
                         }
+#ifdef NANOLANG_VERIF
+                        NLV_LOOP_EXIT(p, generic_union_fields);
+#endif
                         
                         if (!expect(p, TOKEN_RBRACE, "Expected '}' after union fields")) {
                             for (int i = 0; i < field_count; i++) {
@@ -1865,7 +2059,13 @@ static ASTNode *parse_primary(Stage1Parser *p) {
                 elements[0] = first_expr;
                 
                 /* Parse remaining elements */
+#ifdef NANOLANG_VERIF
+                NLV_LOOP_DECL(tuple_literal)
+#endif
                 while (match(p, TOKEN_COMMA)) {
+#ifdef NANOLANG_VERIF
+                    NLV_LOOP_ITER(p, tuple_literal);
+#endif
                     advance(p);  /* consume ',' */
                     
                     /* Allow trailing comma before ) */
@@ -1890,6 +2090,9 @@ static ASTNode *parse_primary(Stage1Parser *p) {
                     }
                     count++;
                 }
+#ifdef NANOLANG_VERIF
+                NLV_LOOP_EXIT(p, tuple_literal);
+#endif
                 
                 if (!expect(p, TOKEN_RPAREN, "Expected ')' at end of tuple literal")) {
                     for (int i = 0; i < count; i++) {
@@ -2005,7 +2208,13 @@ static ASTNode *parse_primary(Stage1Parser *p) {
                 int count = 0;
                 ASTNode **args = malloc(sizeof(ASTNode*) * capacity);
                 
+#ifdef NANOLANG_VERIF
+                NLV_LOOP_DECL(call_args)
+#endif
                 while (!match(p, TOKEN_RPAREN) && !match(p, TOKEN_EOF)) {
+#ifdef NANOLANG_VERIF
+                    NLV_LOOP_ITER(p, call_args);
+#endif
                     if (count >= capacity) {
                         capacity *= 2;
                         args = realloc(args, sizeof(ASTNode*) * capacity);
@@ -2030,6 +2239,9 @@ static ASTNode *parse_primary(Stage1Parser *p) {
                     }
                     count++;
                 }
+#ifdef NANOLANG_VERIF
+                NLV_LOOP_EXIT(p, call_args);
+#endif
                 
                 if (!expect(p, TOKEN_RPAREN, "Expected ')' at end of function call")) {
                     for (int i = 0; i < count; i++) {
@@ -2131,7 +2343,13 @@ static ASTNode *parse_cond_expression(Stage1Parser *p) {
     int clause_count = 0;
     
     /* Parse clauses until we hit '(else' */
+#ifdef NANOLANG_VERIF
+    NLV_LOOP_DECL(cond_clauses)
+#endif
     while (true) {
+#ifdef NANOLANG_VERIF
+        NLV_LOOP_ITER(p, cond_clauses);
+#endif
         Token *current = current_token(p);
         if (!current) {
             parser_error(p, 0, 0, "Error: Unexpected end of input in cond expression\n");
@@ -2192,6 +2410,9 @@ static ASTNode *parse_cond_expression(Stage1Parser *p) {
         values[clause_count] = value;
         clause_count++;
     }
+#ifdef NANOLANG_VERIF
+    NLV_LOOP_EXIT(p, cond_clauses);
+#endif
     
     /* Parse else value (we've already consumed 'else') */
     ASTNode *else_value = parse_expression(p);
@@ -2357,7 +2578,13 @@ static ASTNode *parse_expression_ex(Stage1Parser *p, bool operand_only) {
          * - UnionName.Variant { ... } -> union construction
          * - tuple.0, tuple.1 -> tuple index access
          */
+#ifdef NANOLANG_VERIF
+        NLV_LOOP_DECL(postfix_dot)
+#endif
         while (match(p, TOKEN_DOT)) {
+#ifdef NANOLANG_VERIF
+            NLV_LOOP_ITER(p, postfix_dot);
+#endif
             Token *dot_tok = current_token(p);
             if (++chain_length > MAX_EXPRESSION_CHAIN) {
                 break;  /* reported at the top of the outer loop */
@@ -2434,7 +2661,13 @@ static ASTNode *parse_expression_ex(Stage1Parser *p, bool operand_only) {
                 char **field_names = malloc(sizeof(char*) * capacity);
                 ASTNode **field_values = malloc(sizeof(ASTNode*) * capacity);
 
+#ifdef NANOLANG_VERIF
+                NLV_LOOP_DECL(union_fields)
+#endif
                 while (!match(p, TOKEN_RBRACE) && !match(p, TOKEN_EOF)) {
+#ifdef NANOLANG_VERIF
+                    NLV_LOOP_ITER(p, union_fields);
+#endif
                     if (count >= capacity) {
                         capacity *= 2;
                         field_names = realloc(field_names, sizeof(char*) * capacity);
@@ -2464,6 +2697,9 @@ static ASTNode *parse_expression_ex(Stage1Parser *p, bool operand_only) {
                         advance(p);
                     }
                 }
+#ifdef NANOLANG_VERIF
+                NLV_LOOP_EXIT(p, union_fields);
+#endif
 
                 if (!expect(p, TOKEN_RBRACE, "Expected '}' after union fields")) {
                     free(union_name);
@@ -2496,6 +2732,9 @@ static ASTNode *parse_expression_ex(Stage1Parser *p, bool operand_only) {
                 expr = field_access;
             }
         }
+#ifdef NANOLANG_VERIF
+        NLV_LOOP_EXIT(p, postfix_dot);
+#endif
 
         if (chain_length > MAX_EXPRESSION_CHAIN) {
             continue;  /* reported at the top of the loop */
@@ -2576,7 +2815,13 @@ static ASTNode *parse_block(Stage1Parser *p) {
     int consecutive_failures = 0;
     int last_pos = -1;
     
+#ifdef NANOLANG_VERIF
+    NLV_LOOP_DECL(block)
+#endif
     while (!match(p, TOKEN_RBRACE) && !match(p, TOKEN_EOF)) {
+#ifdef NANOLANG_VERIF
+        NLV_LOOP_ITER(p, block);
+#endif
         /* Check for infinite loop */
         if (p->pos == last_pos) {
             consecutive_failures++;
@@ -2613,6 +2858,9 @@ static ASTNode *parse_block(Stage1Parser *p) {
             advance(p);
         }
     }
+#ifdef NANOLANG_VERIF
+    NLV_LOOP_EXIT(p, block);
+#endif
 
     // Token *end_tok = current_token(p);
     // fprintf(stderr, "DEBUG: [block_%d depth=%d] Expecting closing '}' at line %d\n",
@@ -2872,7 +3120,13 @@ static ASTNode *parse_statement(Stage1Parser *p) {
             int count = 0;
             ASTNode **statements = malloc(sizeof(ASTNode*) * capacity);
 
+#ifdef NANOLANG_VERIF
+            NLV_LOOP_DECL(unsafe_block)
+#endif
             while (!match(p, TOKEN_RBRACE) && !match(p, TOKEN_EOF)) {
+#ifdef NANOLANG_VERIF
+                NLV_LOOP_ITER(p, unsafe_block);
+#endif
                 if (count >= capacity) {
                     capacity *= 2;
                     statements = realloc(statements, sizeof(ASTNode*) * capacity);
@@ -2886,6 +3140,9 @@ static ASTNode *parse_statement(Stage1Parser *p) {
                     advance(p);
                 }
             }
+#ifdef NANOLANG_VERIF
+            NLV_LOOP_EXIT(p, unsafe_block);
+#endif
 
             if (!expect(p, TOKEN_RBRACE, "Expected '}' after unsafe block")) {
                 free(statements);
@@ -2985,7 +3242,13 @@ static ASTNode *parse_struct_def(Stage1Parser *p) {
     char **field_type_names = malloc(sizeof(char*) * capacity);
     Type *field_element_types = calloc(capacity, sizeof(Type));  /* Track element types for arrays */
     
+#ifdef NANOLANG_VERIF
+    NLV_LOOP_DECL(struct_def)
+#endif
     while (!match(p, TOKEN_RBRACE) && !match(p, TOKEN_EOF)) {
+#ifdef NANOLANG_VERIF
+        NLV_LOOP_ITER(p, struct_def);
+#endif
         if (count >= capacity) {
             capacity *= 2;
             field_names = realloc(field_names, sizeof(char*) * capacity);
@@ -3025,6 +3288,9 @@ static ASTNode *parse_struct_def(Stage1Parser *p) {
             advance(p);
         }
     }
+#ifdef NANOLANG_VERIF
+    NLV_LOOP_EXIT(p, struct_def);
+#endif
     
     /* Expect closing brace */
     if (!expect(p, TOKEN_RBRACE, "Expected '}' after struct fields")) {
@@ -3084,7 +3350,13 @@ static ASTNode *parse_enum_def(Stage1Parser *p) {
     int *variant_values = malloc(sizeof(int) * capacity);
     int next_auto_value = 0;
     
+#ifdef NANOLANG_VERIF
+    NLV_LOOP_DECL(enum_def)
+#endif
     while (!match(p, TOKEN_RBRACE) && !match(p, TOKEN_EOF)) {
+#ifdef NANOLANG_VERIF
+        NLV_LOOP_ITER(p, enum_def);
+#endif
         if (count >= capacity) {
             capacity *= 2;
             variant_names = realloc(variant_names, sizeof(char*) * capacity);
@@ -3140,6 +3412,9 @@ static ASTNode *parse_enum_def(Stage1Parser *p) {
             advance(p);
         }
     }
+#ifdef NANOLANG_VERIF
+    NLV_LOOP_EXIT(p, enum_def);
+#endif
     
     /* Expect closing brace */
     if (!expect(p, TOKEN_RBRACE, "Expected '}' after enum variants")) {
@@ -3229,7 +3504,13 @@ static ASTNode *parse_union_def(Stage1Parser *p) {
         int capacity = 4;
         generic_params = malloc(sizeof(char*) * capacity);
         
+#ifdef NANOLANG_VERIF
+        NLV_LOOP_DECL(union_generic_params)
+#endif
         while (!match(p, TOKEN_GT) && !match(p, TOKEN_EOF)) {
+#ifdef NANOLANG_VERIF
+            NLV_LOOP_ITER(p, union_generic_params);
+#endif
             if (generic_param_count >= capacity) {
                 capacity *= 2;
                 generic_params = realloc(generic_params, sizeof(char*) * capacity);
@@ -3255,6 +3536,9 @@ static ASTNode *parse_union_def(Stage1Parser *p) {
                 advance(p);
             }
         }
+#ifdef NANOLANG_VERIF
+        NLV_LOOP_EXIT(p, union_generic_params);
+#endif
         
         if (!expect(p, TOKEN_GT, "Expected '>' after generic parameters")) {
             for (int i = 0; i < generic_param_count; i++) {
@@ -3285,7 +3569,13 @@ static ASTNode *parse_union_def(Stage1Parser *p) {
     Type **variant_field_types = malloc(sizeof(Type*) * capacity);
     char ***variant_field_type_names = malloc(sizeof(char**) * capacity);
     
+#ifdef NANOLANG_VERIF
+    NLV_LOOP_DECL(union_def)
+#endif
     while (!match(p, TOKEN_RBRACE) && !match(p, TOKEN_EOF)) {
+#ifdef NANOLANG_VERIF
+        NLV_LOOP_ITER(p, union_def);
+#endif
         if (count >= capacity) {
             capacity *= 2;
             variant_names = realloc(variant_names, sizeof(char*) * capacity);
@@ -3317,7 +3607,13 @@ static ASTNode *parse_union_def(Stage1Parser *p) {
         Type *field_types = malloc(sizeof(Type) * field_capacity);
         char **field_type_names = malloc(sizeof(char*) * field_capacity);
         
+#ifdef NANOLANG_VERIF
+        NLV_LOOP_DECL(union_variant_fields)
+#endif
         while (!match(p, TOKEN_RBRACE) && !match(p, TOKEN_EOF)) {
+#ifdef NANOLANG_VERIF
+            NLV_LOOP_ITER(p, union_variant_fields);
+#endif
             if (field_count >= field_capacity) {
                 field_capacity *= 2;
                 field_names = realloc(field_names, sizeof(char*) * field_capacity);
@@ -3358,6 +3654,9 @@ static ASTNode *parse_union_def(Stage1Parser *p) {
                 advance(p);
             }
         }
+#ifdef NANOLANG_VERIF
+        NLV_LOOP_EXIT(p, union_variant_fields);
+#endif
         
         /* Close variant fields */
         if (!expect(p, TOKEN_RBRACE, "Expected '}' after variant fields")) {
@@ -3383,6 +3682,9 @@ static ASTNode *parse_union_def(Stage1Parser *p) {
             advance(p);
         }
     }
+#ifdef NANOLANG_VERIF
+    NLV_LOOP_EXIT(p, union_def);
+#endif
     
     /* Close union definition */
     if (!expect(p, TOKEN_RBRACE, "Expected '}' after union variants")) {
@@ -3456,7 +3758,13 @@ static ASTNode *parse_match_expr(Stage1Parser *p) {
     char **pattern_bindings = malloc(sizeof(char*) * capacity);
     ASTNode **arm_bodies = malloc(sizeof(ASTNode*) * capacity);
     
+#ifdef NANOLANG_VERIF
+    NLV_LOOP_DECL(match_arms)
+#endif
     while (!match(p, TOKEN_RBRACE) && !match(p, TOKEN_EOF)) {
+#ifdef NANOLANG_VERIF
+        NLV_LOOP_ITER(p, match_arms);
+#endif
         if (count >= capacity) {
             capacity *= 2;
             pattern_variants = realloc(pattern_variants, sizeof(char*) * capacity);
@@ -3523,6 +3831,9 @@ static ASTNode *parse_match_expr(Stage1Parser *p) {
             advance(p);
         }
     }
+#ifdef NANOLANG_VERIF
+    NLV_LOOP_EXIT(p, match_arms);
+#endif
     
     /* Close match expression */
     if (!expect(p, TOKEN_RBRACE, "Expected '}' after match arms")) {
@@ -3923,7 +4234,13 @@ static ASTNode *parse_function(Stage1Parser *p, bool is_extern, bool is_pub) {
     int precondition_count = 0;
     int precondition_capacity = 0;
 
+#ifdef NANOLANG_VERIF
+    NLV_LOOP_DECL(requires)
+#endif
     while (match(p, TOKEN_REQUIRES)) {
+#ifdef NANOLANG_VERIF
+        NLV_LOOP_ITER(p, requires);
+#endif
         Token *req_tok = current_token(p);
         advance(p);  /* consume 'requires' */
 
@@ -3945,13 +4262,22 @@ static ASTNode *parse_function(Stage1Parser *p, bool is_extern, bool is_pub) {
         }
         preconditions[precondition_count++] = assert_node;
     }
+#ifdef NANOLANG_VERIF
+    NLV_LOOP_EXIT(p, requires);
+#endif
 
     /* Parse optional 'ensures' clauses (postconditions) */
     ASTNode **postconditions = NULL;
     int postcondition_count = 0;
     int postcondition_capacity = 0;
 
+#ifdef NANOLANG_VERIF
+    NLV_LOOP_DECL(ensures)
+#endif
     while (match(p, TOKEN_ENSURES)) {
+#ifdef NANOLANG_VERIF
+        NLV_LOOP_ITER(p, ensures);
+#endif
         Token *ens_tok = current_token(p);
         advance(p);  /* consume 'ensures' */
 
@@ -3974,6 +4300,9 @@ static ASTNode *parse_function(Stage1Parser *p, bool is_extern, bool is_pub) {
         }
         postconditions[postcondition_count++] = assert_node;
     }
+#ifdef NANOLANG_VERIF
+    NLV_LOOP_EXIT(p, ensures);
+#endif
 
     if (is_extern && (precondition_count > 0 || postcondition_count > 0)) {
         parser_error(p, line, column, "Error at line %d, column %d: Extern functions cannot have 'requires' or 'ensures' clauses\n",
@@ -4161,7 +4490,13 @@ static ASTNode *parse_import(Stage1Parser *p) {
             import_symbols = malloc(sizeof(char*) * capacity);
             import_aliases = malloc(sizeof(char*) * capacity);
             
+#ifdef NANOLANG_VERIF
+            NLV_LOOP_DECL(import_symbols)
+#endif
             while (true) {
+#ifdef NANOLANG_VERIF
+                NLV_LOOP_ITER(p, import_symbols);
+#endif
                 if (!(match(p, TOKEN_IDENTIFIER) || match(p, TOKEN_SET))) {
                     parser_error(p, current_token(p)->line, current_token(p)->column, "Error at line %d, column %d: Expected symbol name after 'import'\n",
                             current_token(p)->line, current_token(p)->column);
@@ -4214,6 +4549,9 @@ static ASTNode *parse_import(Stage1Parser *p) {
                 }
                 advance(p);  /* consume comma */
             }
+#ifdef NANOLANG_VERIF
+            NLV_LOOP_EXIT(p, import_symbols);
+#endif
         }
     } else {
         /* Regular import or pub use: Optional 'as alias' */
@@ -4285,6 +4623,9 @@ ASTNode *parse_program(Token *tokens, int token_count) {
     parser.last_error_line = -1;
     parser.last_error_column = -1;
     parser.last_error_message = NULL;
+#ifdef NANOLANG_VERIF
+    nlv_mark("parse_begin", token_count, 0);
+#endif
 
     int capacity = 16;
     int count = 0;
@@ -4293,7 +4634,13 @@ ASTNode *parse_program(Token *tokens, int token_count) {
     int consecutive_failures = 0;
     int last_pos = -1;
     
+#ifdef NANOLANG_VERIF
+    NLV_LOOP_DECL(program)
+#endif
     while (!match(&parser, TOKEN_EOF)) {
+#ifdef NANOLANG_VERIF
+        NLV_LOOP_ITER(&parser, program);
+#endif
         /* Safety check: if current_token returns NULL, we've hit an error */
         Token *tok = current_token(&parser);
         if (!tok) {
@@ -4349,11 +4696,20 @@ ASTNode *parse_program(Token *tokens, int token_count) {
                     advance(&parser); /* consume { */
                     /* Skip to closing brace */
                     int depth = 1;
+#ifdef NANOLANG_VERIF
+                    NLV_LOOP_DECL(toplevel_unsafe_skip)
+#endif
                     while (depth > 0 && !match(&parser, TOKEN_EOF)) {
+#ifdef NANOLANG_VERIF
+                        NLV_LOOP_ITER(&parser, toplevel_unsafe_skip);
+#endif
                         if (match(&parser, TOKEN_LBRACE)) depth++;
                         if (match(&parser, TOKEN_RBRACE)) depth--;
                         advance(&parser);
                     }
+#ifdef NANOLANG_VERIF
+                    NLV_LOOP_EXIT(&parser, toplevel_unsafe_skip);
+#endif
                     parsed = NULL;
                 } else {
                     /* Unknown unsafe construct */
@@ -4513,7 +4869,13 @@ ASTNode *parse_program(Token *tokens, int token_count) {
             advance(&parser);
         }
     }
+#ifdef NANOLANG_VERIF
+    NLV_LOOP_EXIT(&parser, program);
+#endif
 
+#ifdef NANOLANG_VERIF
+    nlv_mark("parse_end", parser.pos, parser.error_count);
+#endif
     if (parser.error_count > 0) {
         /* Parse errors occurred: free partial AST and signal failure */
         for (int i = 0; i < count; i++) {
